@@ -1,6 +1,6 @@
 (* C06, dense path: degen_symeig.backward is the adjoint of the tangent of the full symmetric
-   eigendecomposition  A = Y diag(e) Y^T,  Y^T Y = Y Y^T = 1,  with pairwise distinct eigenvalues
-   (real symmetric case, any size, any field with a derivation D and 1/2).
+   eigendecomposition  A = Y diag(e) Y^T,  Y^T Y = Y Y^T = 1,  with pairwise distinct eigenvalues OR with degenerate pairs
+   masked out and a gauge-invariant cotangent (real symmetric case, any size, any field with a derivation D and 1/2).
    With  W = Y^T G,  F_ij = 1/(e_j - e_i) (i <> j), F_ii = 0,
          R = Y (F o W) Y^T + Y diag(ge) Y^T,   result = (R + R^T)/2
    (exactly the code), for EVERY symmetric tangent dA:
@@ -24,7 +24,6 @@ Hypothesis HA : A^T = A.
 Hypothesis HYtY : Y^T *m Y = 1%:M.
 Hypothesis HYYt : Y *m Y^T = 1%:M.
 Hypothesis Heig : A *m Y = Y *m diag_mx e.
-Hypothesis Hdist : forall i j, i != j -> e 0 i != e 0 j.
 Variable half : F.
 Hypothesis halfP : half + half = 1.
 
@@ -90,37 +89,72 @@ Proof. by rewrite P_eq comm_entry; congr (_ + _); case: (i == j) => //; rewrite 
 Lemma P_diag i : P i i = D (e 0 i).
 Proof. by rewrite P_entry eqxx subrr mulr0 add0r. Qed.
 
-(* the code *)
+(* the code, with its degeneracy map: `mask i j` says that the pair (i, j) is treated as degenerate (|e_i - e_j| below the
+   threshold in the code).  All that is needed: the map is reflexive and symmetric, the eigenvalues of every pair it does
+   NOT mask are distinct, and the cotangent meets the requirement the code itself checks in debug mode -
+   (Y^T G) is symmetric on the masked pairs, i.e. the loss does not depend on the basis inside the masked subspaces. *)
+Variable mask : rel 'I_n.
+Hypothesis mask_refl : forall i, mask i i.
+Hypothesis mask_sym : forall i j, mask i j = mask j i.
+Hypothesis Hsep : forall i j, ~~ mask i j -> e 0 i != e 0 j.
 Variables (G : 'M[F]_n) (ge : 'rV[F]_n).
 Let W := Y^T *m G.
-Let Fm : 'M[F]_n := \matrix_(i, j) (if i == j then 0 else (e 0 j - e 0 i)^-1).
+Hypothesis Hreq : forall i j, mask i j -> W i j = W j i.
+Let Fm : 'M[F]_n := \matrix_(i, j) (if mask i j then 0 else (e 0 j - e 0 i)^-1).
 Let FW : 'M[F]_n := \matrix_(i, j) (Fm i j * W i j).
 Let R := Y *m FW *m Y^T + Y *m diag_mx ge *m Y^T.
 Let result := half *: (R + R^T).
 
-Lemma Fm_off i j : i != j -> Fm i j = (e 0 j - e 0 i)^-1.
+Lemma Fm_off i j : ~~ mask i j -> Fm i j = (e 0 j - e 0 i)^-1.
 Proof. by move=> Hij; rewrite /Fm mxE (negbTE Hij). Qed.
-Lemma Fm_diag i : Fm i i = 0.
-Proof. by rewrite /Fm mxE eqxx. Qed.
+Lemma Fm_masked i j : mask i j -> Fm i j = 0.
+Proof. by move=> Hij; rewrite /Fm mxE Hij. Qed.
 
-Lemma Om_entry i j : i != j -> Om i j = Fm i j * P i j.
+Lemma Om_entry i j : ~~ mask i j -> Om i j = Fm i j * P i j.
 Proof.
-move=> Hij; rewrite P_entry (negbTE Hij) addr0 (Fm_off Hij).
+move=> Hij; have Hne : i != j by apply: contra Hij => /eqP ->; exact: mask_refl.
+rewrite P_entry (negbTE Hne) addr0 (Fm_off Hij).
 set x := Om i j; rewrite mulrCA mulVf ?mulr1 //.
-by rewrite subr_eq0 eq_sym; exact: Hdist.
+by rewrite subr_eq0 eq_sym; exact: Hsep.
 Qed.
 
 Lemma tr_mulT (S T : 'M[F]_n) : \tr (S^T *m T) = \sum_j \sum_i S i j * T i j.
 Proof. by rewrite /mxtrace; apply: eq_bigr => j _; rewrite mxE; apply: eq_bigr => i _; rewrite mxE. Qed.
 
+(* a symmetric matrix is trace-orthogonal to an antisymmetric one *)
+Lemma sym_antisym_tr0 (S T : 'M[F]_n) : S^T = S -> T^T = - T -> \tr (S^T *m T) = 0.
+Proof.
+move=> HS HT; set t := \tr _.
+have Ht : t = - t.
+  rewrite {1}/t -mxtrace_tr trmx_mul trmxK HT mulNmx linearN /= mxtrace_mulC.
+  by rewrite /t HS.
+have H2 : t + t = 0 by rewrite {1}Ht addNr.
+by rewrite -[t]mul1r -halfP mulrDl -mulrDr H2 mulr0.
+Qed.
+
+(* the masked part of W = Y^T G (symmetric by the requirement) and the rest *)
+Let Wm : 'M[F]_n := \matrix_(i, j) (if mask i j then W i j else 0).
+Let Wu : 'M[F]_n := \matrix_(i, j) (if mask i j then 0 else W i j).
+
+Lemma Wm_sym : Wm^T = Wm.
+Proof.
+apply/matrixP => i j; rewrite mxE /Wm [LHS]mxE [RHS]mxE mask_sym.
+by case Hij: (mask i j) => //; rewrite (Hreq Hij).
+Qed.
+
 Lemma tr_GdY : \tr (G^T *m d Y) = \tr (FW^T *m P).
 Proof.
 have -> : G^T *m d Y = W^T *m Om.
   by rewrite /W /Om trmx_mul trmxK -mulmxA (mulmxA Y) HYYt mul1mx.
+have -> : W = Wm + Wu.
+  by apply/matrixP => i j; rewrite !mxE; case: (mask i j); rewrite ?addr0 ?add0r.
+rewrite linearD /= mulmxDl linearD /= (sym_antisym_tr0 Wm_sym Om_antisym) add0r.
 rewrite !tr_mulT; apply: eq_bigr => j _; apply: eq_bigr => i _.
 have -> : FW i j = Fm i j * W i j by rewrite /FW mxE.
-have [->|Hij] := eqVneq i j; first by rewrite Om_diag Fm_diag mul0r mulr0 mul0r.
-rewrite (Om_entry Hij); set x := P i j; set w := W i j; set f := Fm i j; ring.
+rewrite [Wu i j]mxE; case Hij: (mask i j).
+  by rewrite (Fm_masked Hij) !mul0r.
+have Hn : ~~ mask i j by rewrite Hij.
+rewrite (Om_entry Hn); set x := P i j; set w := W i j; set f := Fm i j; ring.
 Qed.
 
 Lemma tr_ge : \sum_i ge 0 i * D (e 0 i) = \tr ((diag_mx ge)^T *m P).
@@ -149,10 +183,74 @@ have -> : half * (t + t) = (half + half) * t by ring.
 by rewrite halfP mul1r.
 Qed.
 
-Theorem degen_symeig_backward_adjoint :
+Theorem degen_symeig_backward_adjoint_masked :
   \tr (G^T *m d Y) + \sum_i ge 0 i * D (e 0 i) = \tr (result^T *m d A).
 Proof.
 rewrite tr_GdY tr_ge !tr_conj /result (tr_symmetrised R dA_sym).
 by rewrite /R [in RHS]linearD /= mulmxDl linearD.
 Qed.
 End Dense.
+
+(* pairwise distinct eigenvalues: the mask is the diagonal and the requirement is void *)
+Section DenseDistinct.
+Variable F : fieldType.
+Variable D : derivation F.
+Variable n : nat.
+Variables (A Y : 'M[F]_n) (e : 'rV[F]_n).
+Hypothesis HA : A^T = A.
+Hypothesis HYtY : Y^T *m Y = 1%:M.
+Hypothesis HYYt : Y *m Y^T = 1%:M.
+Hypothesis Heig : A *m Y = Y *m diag_mx e.
+Hypothesis Hdist : forall i j, i != j -> e 0 i != e 0 j.
+Variable half : F.
+Hypothesis halfP : half + half = 1.
+Variables (G : 'M[F]_n) (ge : 'rV[F]_n).
+
+Theorem degen_symeig_backward_adjoint :
+  let Fm : 'M[F]_n := \matrix_(i, j) (if i == j then 0 else (e 0 j - e 0 i)^-1) in
+  let FW : 'M[F]_n := \matrix_(i, j) (Fm i j * (Y^T *m G) i j) in
+  let R := Y *m FW *m Y^T + Y *m diag_mx ge *m Y^T in
+  \tr (G^T *m dmx D Y) + \sum_i ge 0 i * D (e 0 i) = \tr ((half *: (R + R^T))^T *m dmx D A).
+Proof.
+apply: (@degen_symeig_backward_adjoint_masked F D n A Y e HA HYtY HYYt Heig half halfP (fun i j => i == j)).
+- by move=> i; exact: eqxx.
+- by move=> i j; exact: eq_sym.
+- by move=> i j; exact: Hdist.
+- by move=> i j /eqP ->.
+Qed.
+End DenseDistinct.
+
+(* the requirement IS gauge invariance to first order: if the loss does not change along any rotation of the basis inside the
+   masked pairs - <G, Y K> = 0 for every antisymmetric generator K supported on the mask - then Y^T G is symmetric there *)
+Section Gauge.
+Variable F : fieldType.
+Variable n : nat.
+Variables (Y G : 'M[F]_n).
+Variable mask : rel 'I_n.
+
+Lemma gauge_invariance_gives_requirement :
+  (forall K : 'M[F]_n, K^T = - K -> (forall i j, ~~ mask i j -> K i j = 0) -> \tr (G^T *m (Y *m K)) = 0) ->
+  forall i j, mask i j -> mask j i -> (Y^T *m G) i j = (Y^T *m G) j i.
+Proof.
+move=> Hinv i j Hij Hji.
+pose K : 'M[F]_n := delta_mx i j - delta_mx j i.
+have KT : K^T = - K by rewrite /K linearB /= !trmx_delta opprB.
+have Ksupp : forall a b, ~~ mask a b -> K a b = 0.
+  move=> a b Hab; rewrite /K !mxE.
+  have -> : (a == i) && (b == j) = false.
+    by apply/negbTE; apply: contra Hab => /andP [/eqP -> /eqP ->].
+  have -> : (a == j) && (b == i) = false.
+    by apply/negbTE; apply: contra Hab => /andP [/eqP -> /eqP ->].
+  by rewrite subrr.
+have := Hinv K KT Ksupp.
+have -> : G^T *m (Y *m K) = (Y^T *m G)^T *m K by rewrite trmx_mul trmxK mulmxA.
+rewrite /K mulmxBr linearB /= => /eqP; rewrite subr_eq0 => /eqP.
+have tr_delta (S : 'M[F]_n) a b : \tr (S^T *m delta_mx a b) = S a b.
+  rewrite /mxtrace (bigD1 b) //= big1 ?addr0; last first.
+    move=> c Hc; rewrite mxE big1 // => k _; rewrite !mxE (negbTE Hc) andbF mulr0 //.
+  rewrite mxE (bigD1 a) //= big1 ?addr0; last first.
+    by move=> k Hk; rewrite !mxE (negbTE Hk) mulr0.
+  by rewrite !mxE !eqxx mulr1.
+by rewrite !tr_delta.
+Qed.
+End Gauge.
